@@ -233,7 +233,11 @@ Fixpoint trace (apps : list N) (fails : nat -> bool) (i : nat) (fuel : nat) (st 
 Definition recover (st : dstate) : dstate := with_fbe st None.
 
 (* two handlers of one device interleaved: sched says whose turn it is (false = first); a handler
-   that has finished yields to the other *)
+   that has finished yields to the other. The scheduler (scheduler.go) keeps one slot per device from
+   the notification until the buffer has been read: a handler that reaches its buffer read while the
+   other holds the slot is dropped there as a duplicate (its payload has been published already). *)
+Definition at_buffer_read (p : prog) : bool := match p with Do (SGetPhy _) _ => true | _ => false end.
+Definition dedupe (mine other : prog) : prog := if at_buffer_read mine && at_buffer_read other then Halt [] else mine.
 Fixpoint interleave (apps : list N) (sched : list bool) (fuel : nat) (st : dstate) (p q : prog) (acc : list out) : dstate * list out :=
   match fuel with
   | O => (st, acc)
@@ -244,7 +248,22 @@ Fixpoint interleave (apps : list N) (sched : list bool) (fuel : nat) (st : dstat
     | Do o k, Halt b => let '(st', r, e) := exec apps st o in interleave apps (tl sched) f st' (k r) (Halt b) (acc ++ e)
     | Do o1 k1, Do o2 k2 =>
       if hd false sched
-      then let '(st', r, e) := exec apps st o2 in interleave apps (tl sched) f st' p (k2 r) (acc ++ e)
-      else let '(st', r, e) := exec apps st o1 in interleave apps (tl sched) f st' (k1 r) q (acc ++ e)
+      then let '(st', r, e) := exec apps st o2 in interleave apps (tl sched) f st' p (dedupe (k2 r) p) (acc ++ e)
+      else let '(st', r, e) := exec apps st o1 in interleave apps (tl sched) f st' (dedupe (k1 r) q) q (acc ++ e)
+    end
+  end.
+(* the operations of an interleaved run, tagged with the handler that performed them *)
+Fixpoint itrace (apps : list N) (sched : list bool) (fuel : nat) (st : dstate) (p q : prog) : list (bool * string) :=
+  match fuel with
+  | O => []
+  | S f =>
+    match p, q with
+    | Halt _, Halt _ => []
+    | Halt a, Do o k => let '(st', r, _) := exec apps st o in (true, sop_name o) :: itrace apps (tl sched) f st' (Halt a) (k r)
+    | Do o k, Halt b => let '(st', r, _) := exec apps st o in (false, sop_name o) :: itrace apps (tl sched) f st' (k r) (Halt b)
+    | Do o1 k1, Do o2 k2 =>
+      if hd false sched
+      then let '(st', r, _) := exec apps st o2 in (true, sop_name o2) :: itrace apps (tl sched) f st' p (dedupe (k2 r) p)
+      else let '(st', r, _) := exec apps st o1 in (false, sop_name o1) :: itrace apps (tl sched) f st' (dedupe (k1 r) q) q
     end
   end.
